@@ -27,6 +27,7 @@ def build_registry():
     polynomial.install_axioms(reg)
     call.install_axioms(reg)
     display.install_axioms(reg)
+    indexing.install_axioms(reg)
     from engine import textmodel
     textmodel.install(reg)
     for c in ALL_CONTRACTS.values():
@@ -415,14 +416,19 @@ PROPS = {
     ),
     "C18": dict(
         level="other",
-        contracts=["numpoly.glexsort", "numpoly.bindex"],
+        contracts=["numpoly.glexsort", "numpoly.bindex", "numpoly.monomial"],
         statics=[statics.module_state_obligations],
         trusted_base=COMMON_TRUSTED + ["numpy.lexsort / numpy.argsort(kind='stable') / fancy indexing axioms (engine/sortmodel.py)",
                                        "order axioms for lexle/meq/mrev (conformance-tested against conc/model.col_key)"],
         assumptions=["A3: numpy axioms (lexsort stable, last key primary; argsort stable only with kind='stable')"],
-        explanation="glexsort: contract proved for all key matrices (any number of rows/columns, symbolic flags). "
-                    "glexindex/_glexindex, bindex, cross_truncate, monomial: shape algebra and a floating-point L_q norm, "
-                    "outside the VC generator's reach -> bounded-exhaustive stand-in over the stated grid, labelled bounded.",
+        explanation="glexsort: contract proved for all key matrices (any number of rows/columns, symbolic flags). bindex: the "
+                    "ordering letters are decoded exactly and every other parameter is forwarded to glexindex. monomial (dimensions "
+                    "given as names): the exponent rows of the result ARE the index array glexindex returns for the forwarded "
+                    "start/stop/graded/reverse/cross_truncation and dimensions = number of names, under the given names, one array "
+                    "element per row, coefficient column t the t-th unit vector with every entry written (loop invariant) - so "
+                    "element k is the monomial with row k. glexindex/_glexindex and cross_truncate themselves: index-grid algebra "
+                    "and a floating-point L_q norm, outside the VC generator's reach -> bounded-exhaustive stand-in over the "
+                    "stated grid, labelled bounded; their contract (pairwise different storable rows) is assumed by monomial.",
         not_decided=["cross_truncate floating-point norm (bounded only)", "_glexindex grid construction (bounded only)"],
     ),
 }
